@@ -558,11 +558,12 @@ def run(ctx):
     if oks:
         cvar = [d['ref'] for i in f.all_nodes() if f.N(i)['k'] == 'DeclStmt' for d in f.N(i)['decls'] if d.get('init') is not None and f.contains(d['init'], conv[0])]
         a_ = f.args(second[0])
-        g2 = [j for j in f.walk(f.N(second[0])['ch'][0]) if j in gets]
+        g2 = [j for j in q.expr_calls_deep(f, f.N(second[0])['ch'][0]) if j in gets]
         lit = [f.N(j).get('s') for g_ in g2 for j in f.walk(g_) if f.N(j)['k'] == 'StringLiteral']
+        dcalls = lambda e: set(q.short_of(f.callee(j) or '') for j in q.expr_calls_deep(f, e))
         oks = len(cvar) == 1 and len(g2) == 1 and [x.lower().replace('-', '').replace('_', '') for x in lit] == ['utf8'] and f.ref_of(a_[2]) == P3 and \
-            cvar[0] in f.subtree_refs(a_[0]) and any(q.short_of(f.callee(j) or '') in ('c_str', 'data') for j in f.calls(a_[0])) and not any(q.short_of(f.callee(j) or '') in ('size', 'length') for j in f.calls(a_[0])) and \
-            cvar[0] in f.subtree_refs(a_[1]) and any(q.short_of(f.callee(j) or '') in ('size', 'length') for j in f.calls(a_[1])) and any(q.short_of(f.callee(j) or '') in ('c_str', 'data') for j in f.calls(a_[1])) and \
+            cvar[0] in q.deep_refs(f, a_[0]) and bool(dcalls(a_[0]) & {'c_str', 'data'}) and not (dcalls(a_[0]) & {'size', 'length'}) and \
+            cvar[0] in q.deep_refs(f, a_[1]) and bool(dcalls(a_[1]) & {'size', 'length'}) and bool(dcalls(a_[1]) & {'c_str', 'data'}) and \
             any(f.N(i)['k'] == 'ReturnStmt' and f.strip(f.N(i)['ch'][0]) == second[0] for i in f.all_nodes())
     ctx.check(oks, R9, 'valid(name):converted-text-validated-as-UTF-8-whole', 'the converted text is not validated whole (c_str(), c_str()+size(), count) by the validator registered as utf-8', f.where)
     tries = [i for i in f.all_nodes() if f.N(i)['k'] == 'CXXTryStmt']
